@@ -1,0 +1,74 @@
+//go:build verif
+
+package rogger
+
+import (
+	"context"
+	"time"
+)
+
+// Hooks for the verification harness. This file is only compiled with the build tag `verif`;
+// normal builds use verif_hook_off.go, where verifYield is an empty, inlinable function.
+
+// verifYieldFn is called at the named points of flushLog. It is only assigned by VerifReset,
+// before the flusher goroutine that reads it is started.
+var verifYieldFn func(point string)
+
+func verifYield(point string) {
+	if f := verifYieldFn; f != nil {
+		f(point)
+	}
+}
+
+// VerifReset brings the package-level flusher back to its initial state so that FlushLogger can
+// be exercised more than once per process: it stops the running flusher (as FlushLogger would),
+// waits until it has exited, discards whatever is still queued, and starts a fresh flusher with a
+// log queue of the given capacity, the given flush timeout and the given yield function.
+// No goroutine may be logging or flushing while it runs. It reports false (and changes nothing
+// further) if the old flusher did not exit within wait.
+func VerifReset(queueCap int, flushTimeout time.Duration, yield func(point string), wait time.Duration) bool {
+	syncCancel()
+	select {
+	case <-asyncDone.Done():
+	case <-time.After(wait):
+		return false
+	}
+	logQueue = make(chan *logValue, queueCap)
+	waitFlushTimeout = flushTimeout
+	syncDone, syncCancel = context.WithCancel(context.Background())
+	asyncDone, asyncCancel = context.WithCancel(context.Background())
+	verifYieldFn = yield
+	go flushLog()
+	return true
+}
+
+// VerifFlushRequested is closed once FlushLogger has asked the flusher to finish.
+func VerifFlushRequested() <-chan struct{} { return syncDone.Done() }
+
+// VerifFlushCompleted reports whether the flusher has signalled completion.
+func VerifFlushCompleted() bool {
+	select {
+	case <-asyncDone.Done():
+		return true
+	default:
+		return false
+	}
+}
+
+// VerifQueueLen is the number of entries waiting in the log queue.
+func VerifQueueLen() int { return len(logQueue) }
+
+// VerifDiscardQueued removes and drops whatever is queued right now and returns how many entries
+// that were. The harness uses it after a flush, when no flusher is running any more, to let
+// logging goroutines that are blocked on a full queue finish.
+func VerifDiscardQueued() int {
+	n := 0
+	for {
+		select {
+		case <-logQueue:
+			n++
+		default:
+			return n
+		}
+	}
+}
